@@ -66,6 +66,9 @@ pub struct C03Case {
     pub typed: Option<TypedCase>,
     /// b.* validators: (denotation, spec, values)
     pub adhoc: Vec<(D, Value, Vec<(JsVal, String)>)>,
+    /// (root index, member, the same member with one certainly-undeclared key added at some object position)
+    #[serde(default)]
+    pub extras: Vec<(usize, JsVal, JsVal)>,
 }
 
 fn opts_list() -> Vec<Value> {
@@ -133,9 +136,20 @@ impl Check for C03 {
     }
     fn generate(&self, s: &mut Src, _tier: Tier) -> Value {
         let adhoc_only = s.chance(1, 4);
-        let mut case = C03Case { typed: None, adhoc: vec![] };
+        let mut case = C03Case { typed: None, adhoc: vec![], extras: vec![] };
         if !adhoc_only {
             case.typed = Some(gen_typed_case(s, &GenCfg::default(), RenderCfg::all(), Mode::Open, 2, (8, 6, 5)));
+        }
+        if let Some(t) = &case.typed {
+            for (i, _) in t.roots.iter().enumerate() {
+                let members: Vec<JsVal> = t.values[i].iter().filter(|(_, l)| l == "member").map(|(v, _)| v.clone()).collect();
+                for m in members.iter().take(3) {
+                    let e = crate::jsval::inject_key(m, s, "zz_undeclared");
+                    if e != *m {
+                        case.extras.push((i, m.clone(), e));
+                    }
+                }
+            }
         }
         let n = if adhoc_only { s.range(1, 3) } else { s.range(0, 1) };
         for _ in 0..n {
@@ -249,6 +263,50 @@ impl Check for C03 {
                         }
                     }
                     out.mismatch(ctx, &sig, p.to_string(), json!({"validator": q.desc, "type": q.d, "value": q.v, "value_tagged": q.v.to_tagged(), "observed": r["obs"], "problems": ps}));
+                }
+            }
+        }
+        // "consists only of declared parts of the input": adding a key the type does not declare (decided by the strict
+        // reference: the member is strict, the variant is not) to an accepted input must not change what parse returns
+        if let (Some(t), Some(c)) = (&case.typed, &code) {
+            if !case.extras.is_empty() {
+                let mut q2 = vec![];
+                for (i, base, extra) in &case.extras {
+                    let name = &t.roots[*i].0;
+                    q2.push(json!({"q":"trio","parser":name,"value":base.to_tagged(),"opts":null}));
+                    q2.push(json!({"q":"trio","parser":name,"value":extra.to_tagged(),"opts":null}));
+                }
+                let resp2 = match node_case(ctx, Some(c), q2) {
+                    Ok(r) => r,
+                    Err(e) => return Outcome::infra(e),
+                };
+                let strict = Ref::new(&t.env, Mode::Strict);
+                for (k, (i, base, extra)) in case.extras.iter().enumerate() {
+                    let d = &t.roots[*i].1;
+                    let (rb, re) = (&resp2["results"][2 * k], &resp2["results"][2 * k + 1]);
+                    if rb["obs"]["validate"] != json!(true) || re["obs"]["validate"] != json!(true) {
+                        continue;
+                    }
+                    // an index signature or `any` somewhere in the type makes every key declared there, and inside a union
+                    // an extra key can change which branches match: the relation is stated for types without them
+                    if crate::c02::reaches(&t.env, d, &mut |n| matches!(n, D::Object { index: Some(_), .. } | D::Any)) {
+                        out.label("extra_key_relation_not_applicable");
+                        continue;
+                    }
+                    if strict.member(d, base) != Tri::Yes || strict.member(d, extra) != Tri::No {
+                        out.label("extra_key_declared_or_unspecified");
+                        continue;
+                    }
+                    out.evals += 1;
+                    out.label("undeclared_key_pair");
+                    if rb["obs"]["data"] != re["obs"]["data"] && rb["obs"]["parse"] == json!("returned") && re["obs"]["parse"] == json!("returned") {
+                        out.mismatch(
+                            ctx,
+                            "c03_undeclared_key_survives_parse",
+                            "parse of an input with one undeclared key added returns something else than parse of the input without it",
+                            json!({"program": t.program, "parser": t.roots[*i].0, "type": d, "value": base, "with_extra_key": extra, "data": rb["obs"]["data"], "data_with_extra_key": re["obs"]["data"]}),
+                        );
+                    }
                 }
             }
         }
